@@ -19,9 +19,47 @@ resolved ones (properties C10/C11: one per name, the highest version under versi
 the earliest such object on ties, names in order of first occurrence): `resolved_indices`.
 
 All filesystem work happens below one directory made by tempfile.mkdtemp under the system
-temp dir, removed in a finally; nothing is written to /repo or /verif by this module."""
+temp dir, removed in a finally; nothing is written to /repo or /verif by this module.
+
+PUBLIC ENTRY POINTS AND ARGUMENTS THAT REACH THE BEHAVIOUR OF C12 (URL of a script / stylesheet,
+copied files), and where this module drives each with non-default values ("route" / "via" / "ctor" /
+"argstyle" keys of a scenario; every result is judged by the same oracle from the statement):
+  HTMLDependency(name, version: str | Version, source={subdir[, package]} | {href} | None,
+                 script / stylesheet: one dict | list of dicts (+ extra attributes), all_files, meta, head)
+                                                      -- d["ctor"]: one_dict, extra, meta, head, version
+                                                         object, spelling of subdir (trailing slash, /./,
+                                                         x/../), package given as a dotted sub-package
+  .source_path_map(lib_prefix=, include_version=)     -- differential + oracle (B/C 2)
+  .as_dict(lib_prefix=, include_version=)             -- differential + oracle (B/C 2), probes
+  .as_html_tags(lib_prefix=, include_version=), str(dep) (defaults: 'lib', version included)
+                                                      -- probes (pre_probe), big URL cases
+  .copy_to(path, include_version)                     -- mode 'copy': path absolute / with trailing slash /
+                                                         relative to the current directory, flag positional
+  .serialize_to_script_json(indent=) -> HTMLTextDocument  -- route textdoc_json (indent None / 0 / 2 / 7)
+  copy.copy(dep) / copy.deepcopy(dep)                 -- probes; via = copy / deepcopy of the host
+  HTMLDocument(*children, **html attributes) .append() .render(lib_prefix=, include_version=)
+       .save_html(file, libdir, include_version) (positional or keyword, defaults omitted), copy.copy
+                                                      -- routes save_html, render_copy; via append / copy /
+                                                         deepcopy; doc_kwargs (lang / class_ / style)
+  Tag.save_html / TagList.save_html(file, *, libdir=, include_version=)   -- hosts tag / taglist
+  Tag / TagList .append .extend .insert, + / +=, with-block (sys.displayhook), tagify()
+                                                      -- via (how the children holding the dependencies
+                                                         got into the host), then save
+  HTMLTextDocument(html, deps=, deps_replace_pattern=).render(lib_prefix=, include_version=)
+                                                      -- routes textdoc_deps / textdoc_json (placeholder
+                                                         with regex metacharacters, long templates,
+                                                         placeholder twice), second document afterwards
+  htmltools.html_dependency_render_mode = "json" + str(tag)  -- route textdoc_json ("str")
+  head_content(...) next to the dependencies, dependencies with a head= payload, JSX components (which
+  bring the library's own react / react-dom dependencies) around a dependency  -- nest 6, 7; ctor head
+  Tag.show(renderer="browser") (save_html with defaults into the temp dir) -- show_scenarios
+  NOT driven: dependencies INSIDE another dependency's head payload / inside head_content(..): known
+  finding F7 (C11) -- they are never hoisted, so they have no URL at all; renderer="ipython".
+Sizes: see big_scenarios (counts 7..300 of every countable thing, files up to 1 MiB + 1)."""
 from __future__ import annotations
 
+import copy as _copy
+import hashlib
 import html.parser
 import importlib
 import itertools
@@ -36,11 +74,11 @@ from typing import Any
 
 from packaging.version import Version as _RefVersion   # reference for version-number ordering
 
-from ..common import Ctx, S, unS, differential, run_model, sx_opt
+from ..common import Ctx, ImplTimeout, S, time_limit, unS, differential, run_model, sx_opt
 from .. import trees
 
 import htmltools
-from htmltools import HTMLDependency, HTMLDocument, Tag, TagList, div, span, tags
+from htmltools import HTMLDependency, HTMLDocument, HTMLTextDocument, Tag, TagList, div, head_content, span, tags
 
 # --------------------------------------------------------------------------------------
 # small helpers
@@ -53,7 +91,10 @@ def call(f, *a, **kw):
     5: ValueError (UnicodeEncodeError from quote) and OSError (FileExistsError from copytree,
        NotADirectoryError from rmtree), which the model shows as Err ValueError"""
     try:
-        return ("ok", f(*a, **kw))
+        with time_limit():
+            return ("ok", f(*a, **kw))
+    except ImplTimeout:
+        return ("err", "did-not-terminate")
     except OSError as e:
         return ("err", 5)
     except ValueError:
@@ -102,18 +143,46 @@ def dirs_below(top: str) -> set[str]:
     return out
 
 
+def blob(n: int, seed: int) -> bytes:
+    """n deterministic bytes in which every 32-byte block differs from every other one (so a block
+    written twice, dropped, padded or put at the wrong offset changes the content)"""
+    out = bytearray()
+    k = 0
+    while len(out) < n:
+        out += hashlib.sha256(b"%d:%d" % (seed, k)).digest()
+        k += 1
+    return bytes(out[:n])
+
+
+def content_bytes(c) -> bytes:
+    """file content of a scenario: a list of byte values, or {"gen": [n, seed]} = blob(n, seed)
+    (large files stay small in the replay file)"""
+    if isinstance(c, dict):
+        return blob(int(c["gen"][0]), int(c["gen"][1]))
+    return bytes(c)
+
+
+def abs_bytes(b: bytes) -> bytes:
+    """what the abstract model is shown of a file's content: the content itself when short, a
+    digest of it otherwise (the model copies contents as opaque values, so any injective renaming
+    of contents commutes with it)"""
+    if len(b) <= 1024:
+        return b
+    return b"\x00C12-digest" + len(b).to_bytes(8, "big") + hashlib.sha256(b).digest()
+
+
 def write_tree(top: str, files: list) -> None:
     for rel, content in files:
         full = os.path.join(top, rel)
         os.makedirs(os.path.dirname(full), exist_ok=True)
         with open(full, "wb") as fh:
-            fh.write(bytes(content))
+            fh.write(content_bytes(content))
 
 
 def fs_sx(entries: dict[str, bytes], base: str) -> list:
     """abstract filesystem: absolute path segments + bytes"""
     b = segs(base)
-    return [[[S(x) for x in b + segs(rel)], list(content)] for rel, content in entries.items()]
+    return [[[S(x) for x in b + segs(rel)], list(abs_bytes(content))] for rel, content in entries.items()]
 
 
 def fs_from_sx(m: list) -> dict[str, bytes]:
@@ -141,7 +210,16 @@ NONTRIVIAL_CHARS = set(" %#?&'\"<>+\\\t\n;=")
 # how one occurrence of a dependency is embedded in the content (document order is kept):
 # 0 directly, 1 in a div, 2 two levels down, 3 in a TagList inside a div, 4 produced only by the
 # tagify() of a user-defined object, 5 inside a plain Python list child
+# 6 inside a JSX component (which brings the react / react-dom dependencies of the library itself),
+# 7 next to head_content(...) and a source-less dependency; ["chain", depth, kind]: see chain()
 NESTS = [0, 1, 2, 3, 4, 5]
+NESTS_MORE = [6, 7, ["chain", 9, "mix"], ["chain", 17, "tag"]]
+ROUTES = ["save_html", "render_copy", "textdoc_deps", "textdoc_json"]
+# how the children (which hold the dependencies) get into the host / which object is then saved
+VIAS = [None, "append", "extend", "insert", "add", "with"]
+POSTS = [None, "copy", "deepcopy", "tagify"]
+TEXT_PATTERNS = ['<meta data-foo="">', "<!-- head-content -->", "{{ deps }}", "$deps^", "(.*)", "[a-z]+?",
+                 "\\1\\g<0>", "a|b", "^", "."]
 # how the `file` argument of save_html names dirname/index.html: absolute; relative to the current
 # directory (= the document's directory, or its parent); with a redundant x/../ component; through
 # a symbolic link to the document's directory
@@ -171,7 +249,20 @@ def rand_relpath(rng, ext=None) -> str:
     return "/".join(parts)
 
 
-def rand_bytes(rng) -> list[int]:
+# sizes just below, at and above 8 .. 256, and one around 300: for every countable thing
+SIZES = [7, 8, 9, 15, 16, 17, 31, 32, 33, 63, 64, 65, 127, 128, 129, 255, 256, 257, 300]
+# buffer sizes that file-copying code is likely to use (io.DEFAULT_BUFFER_SIZE, the old and the
+# current shutil.COPY_BUFSIZE, 256 KiB, 1 MiB): one below, exact, one above, and beyond it by an
+# amount that is no multiple of any of them
+BUFSIZES = [8192, 16384, 65536, 262144, 1048576]
+
+
+def rand_bytes(rng):
+    r = rng.random()
+    if r < 0.04:          # 7 .. 300 bytes
+        return [rng.randrange(256) for _ in range(rng.choice(SIZES))]
+    if r < 0.05:          # thousands of bytes: given by a generator description
+        return {"gen": [rng.choice([4097, 5000, 8193, 70001]), rng.randrange(1000)]}
     return [rng.randrange(256) for _ in range(rng.randrange(0, 24))]
 
 
@@ -235,6 +326,8 @@ def rand_dep(rng, idx: int, force: dict | None = None) -> dict:
         d["all_files"] = False
     else:
         d["all_files"] = False
+    if rng.random() < 0.3:      # other ways of writing the same definition (see Realised.make_dep)
+        d["ctor"] = rand_ctor(rng)
     # pre-existing content of the target directory
     r = rng.random()
     if r < 0.45:
@@ -244,6 +337,21 @@ def rand_dep(rng, idx: int, force: dict | None = None) -> dict:
             d["stale"] = {sorted(d["files"])[0]: [0xEE, 0xEE], **d["stale"]}
         d["stale"] = prefix_free_files(d["stale"])
     return d
+
+
+SUBDIR_FORMS = ["plain", "slash", "dot", "dotdot"]
+HEAD_FORMS = ["text", "tag", "list"]
+
+
+def rand_ctor(rng) -> dict:
+    """how the constructor is given the definition: a lone item as a dict instead of a list, items
+    with extra attributes, meta items and a head payload (neither has a script src / link href),
+    the version as a Version object, the source directory spelled with a trailing slash or with
+    redundant components, the package of a package source given as a dotted sub-package"""
+    return {"one_dict": rng.random() < 0.5, "extra": rng.random() < 0.5, "meta": rng.random() < 0.4,
+            "head": rng.choice(HEAD_FORMS) if rng.random() < 0.4 else None,
+            "version_obj": rng.random() < 0.4, "subdir": rng.choice(SUBDIR_FORMS),
+            "subpkg": rng.random() < 0.5}
 
 
 def doc_order(sc: dict) -> list[int]:
@@ -274,7 +382,9 @@ def variant_files(rng, files: dict) -> dict:
         r = rng.random()
         if r < 0.2 and len(files) > 1:
             continue
-        out[p] = list(c) if r > 0.85 else rand_bytes(rng) + [0x76, k % 256]
+        nb = rand_bytes(rng)
+        out[p] = (list(c) if not isinstance(c, dict) else dict(c)) if r > 0.85 else (
+            nb + [0x76, k % 256] if isinstance(nb, list) else nb)
     if rng.random() < 0.6:
         out[rand_relpath(rng)] = rand_bytes(rng)
     out = prefix_free_files(out)
@@ -330,6 +440,47 @@ def add_family(rng, sc: dict) -> None:
     sc["nest"] = [rng.choice(NESTS) for _ in order]
 
 
+def rand_text_opts(rng, pad=None) -> dict:
+    return {"pat": rng.randrange(len(TEXT_PATTERNS)), "pad": rng.choice([0, 0, 9, 300]) if pad is None else pad,
+            "twice": rng.random() < 0.3, "indent": rng.choice([None, 0, 2, 7]),
+            "json_via": rng.choice(["str", "serialize"]), "empty_deps": rng.random() < 0.3}
+
+
+def widen(rng, sc: dict, p: float = 1.0) -> dict:
+    """other entry points, other ways of passing the same arguments, other ways of putting the
+    same content together (see the list at the top of the file)"""
+    if rng.random() < 0.5 * p:
+        sc["route"] = rng.choice(ROUTES[1:])
+        if sc["route"] == "render_copy" and rng.random() < 0.7:
+            sc["host"] = "doc"
+        if sc["route"].startswith("textdoc"):
+            sc["text"] = rand_text_opts(rng)
+    if rng.random() < 0.4 * p:
+        sc["via"] = rng.choice(VIAS[1:])
+    if rng.random() < 0.3 * p:
+        sc["post"] = rng.choice(POSTS[1:])
+    if rng.random() < 0.3 * p:
+        sc["argstyle"] = rng.choice([1, 2])
+    if rng.random() < 0.3 * p:
+        sc["doc_kwargs"] = rng.choice([{"lang": "en"}, {"class_": "a b", "lang": "fr"},
+                                       {"style": "margin:0", "data_x": "1"}])
+    if rng.random() < 0.4 * p:
+        sc["probe"] = True
+    if rng.random() < 0.3 * p:
+        sc["copy_path"] = rng.choice(["slash", "rel"])
+    if rng.random() < 0.2 * p:
+        sc["dup_kid"] = True
+    if rng.random() < 0.4 * p:
+        order = doc_order(sc)
+        nest = list(sc.get("nest") or ([1] + [0] * len(order)))[:len(order)]
+        nest += [0] * (len(order) - len(nest))
+        for k in range(len(nest)):
+            if rng.random() < 0.5:
+                nest[k] = rng.choice(NESTS_MORE)
+        sc["doc_order"], sc["nest"] = order, nest
+    return sc
+
+
 def rand_scenario(rng, **force) -> dict:
     n = rng.choice([1, 1, 2, 2, 3])
     sc = {"libdir": rng.choice(LIBDIRS), "iv": rng.random() < 0.5,
@@ -342,8 +493,142 @@ def rand_scenario(rng, **force) -> dict:
         add_family(rng, sc)
     if rng.random() < 0.3:
         sc["file_form"] = rng.choice(FILE_FORMS[1:])
+    if rng.random() < 0.5:
+        widen(rng, sc)
     sc.update(force)
     return sc
+
+
+# --------------------------------------------------------------------------------------
+# size and depth: every countable thing of the statement at 7 .. 300, files beyond every buffer size
+# --------------------------------------------------------------------------------------
+AWKWARD_LAST = "last \u00e9%41 #?.js"
+
+
+def simple_dep(name: str, version: str = "1.0", files: dict | None = None, scripts=None, styles=None,
+               kind: str = "dir", all_files: bool = False, stale: dict | None = None) -> dict:
+    files = dict(files if files is not None else {"f.js": [1, 2, 3]})
+    return {"name": name, "version": version, "kind": kind, "all_files": all_files, "files": files,
+            "scripts": list(scripts if scripts is not None else [p for p in files if not p.endswith(".css")]),
+            "styles": list(styles if styles is not None else [p for p in files if p.endswith(".css")]),
+            "href": None, "stale": dict(stale or {}), "stale_kind": "files" if stale else "none"}
+
+
+def file_sizes(rng, full: bool) -> list[int]:
+    out: list[int] = []
+    for t in BUFSIZES:
+        beyond = [t + t // 4 + 7, t + t // 2 + 3, 2 * t + 1, 3 * t - 5]
+        out += [t - 1, t, t + 1] + (beyond if full and t < 1048576 else [rng.choice(beyond[:2 if t == 1048576 else 4])])
+    return out + [300 * 1024 + 7, 70001, 5000] + ([2 * 262144, 4 * 65536 + 1] if full else [])
+
+
+BIG_ITEMS = ["deps", "scripts", "styles", "allfiles", "pathdepth", "nestdepth", "family", "libdir", "stale",
+             "namelen", "occurrences", "text", "versionlen"]
+BIG_MAX = {"pathdepth": 70, "nestdepth": 70, "libdir": 70, "namelen": 250, "versionlen": 100}
+
+
+def big_scenario(rng, item: str, n: int) -> dict:
+    """one scenario in which `item` has size n; what is unusual sits in the last element"""
+    sc: dict[str, Any] = {"libdir": rng.choice(LIBDIRS), "iv": rng.random() < 0.5,
+                          "host": rng.choice(["doc", "tag", "taglist"]), "shape": rng.choice(SHAPES),
+                          "outside": {"keep.txt": [1]}, "missing": None, "big": [item, n]}
+    tail = [0xC1, 0x2E] + [n % 256, n // 256]
+    if item == "deps":
+        sc["deps"] = [simple_dep(f"n{k}", "1.%d" % (k % 7), {"f.js": [k % 256]}) for k in range(n - 1)]
+        sc["deps"].append(simple_dep("zlast", "2.0", {AWKWARD_LAST: tail, "sub dir/s.css": [5]},
+                                     stale={"old.txt": [1]}))
+        sc["shape"] = rng.choice(["fragment", "html_head", "body"])
+    elif item in ("scripts", "styles"):
+        ext = ".js" if item == "scripts" else ".css"
+        files = {"s%03d%s" % (k, ext): [k % 256, k // 256] for k in range(n - 1)}
+        files["sub dir/" + AWKWARD_LAST[:-3] + ext] = tail
+        sc["deps"] = [simple_dep("many", "1.0", files, kind=rng.choice(["dir", "pkg"]),
+                                 stale={"s000" + ext: [0xEE], "gone.txt": [1]})]
+    elif item == "allfiles":
+        files = {("d/" if k % 10 == 0 else "") + "f%03d.txt" % k: [k % 256] for k in range(n - 1)}
+        files["d/e/" + AWKWARD_LAST] = tail
+        sc["deps"] = [simple_dep("tree", "1.0", files, scripts=["f001.txt"], styles=[], all_files=True,
+                                 stale={"d/stale.txt": [1]})]
+    elif item == "pathdepth":
+        p = "/".join(["d"] * n) + "/" + AWKWARD_LAST
+        af = rng.random() < 0.5
+        sc["deps"] = [simple_dep("deep", "1.0", {p: tail, "top.css": [1]}, scripts=[p], styles=["top.css"],
+                                 all_files=af, stale={"/".join(["d"] * n) + "/stale.txt": [1]})]
+    elif item == "nestdepth":
+        sc["deps"] = [simple_dep("a", "1.0", {AWKWARD_LAST: tail}), simple_dep("b", "1.1", {"b c.css": [1]})]
+        sc["doc_order"] = [0, 1]
+        sc["nest"] = [["chain", n, rng.choice(["tag", "list", "taglist", "tuple", "mix"])], 0]
+        sc["shape"] = rng.choice(["fragment", "html_head", "body", "html_nobody"])
+    elif item == "family":
+        vs = ["1.%d" % k for k in range(n)]
+        deps = [simple_dep("fam", v, {"f.js": [k % 256], ("only %d.css" % k): [k % 256, 1]}) for k, v in enumerate(vs)]
+        order = list(range(n))
+        rng.shuffle(order)
+        sc["deps"], sc["doc_order"], sc["nest"] = deps, order, [rng.choice([0, 0, 1, 5]) for _ in order]
+        sc["shape"] = rng.choice(["fragment", "html_head", "body"])
+    elif item == "libdir":
+        sc["libdir"] = "/".join(["l%d" % (k % 10) for k in range(n)])
+        sc["deps"] = [simple_dep("a", "1.0", {AWKWARD_LAST: tail}, stale={"old.txt": [1]})]
+    elif item == "stale":
+        stale = {("s%03d.txt" % k if k % 8 else "sd/%03d.txt" % k): [k % 256] for k in range(n - 1)}
+        stale["/".join(["x"] * min(n, 60)) + "/deep stale.txt"] = [1]
+        sc["deps"] = [simple_dep("a", "1.0", {AWKWARD_LAST: tail, "sd/keep.css": [2]}, stale=stale,
+                                 all_files=rng.random() < 0.5)]
+    elif item == "namelen":
+        fname = "a" * max(1, n - 8) + " \u00e9%#.js"            # n characters, the awkward ones last
+        dname = ("n" * n)[:200]
+        sc["deps"] = [simple_dep(dname, "1.0", {fname: tail, "d " + "b" * min(n, 200) + "/x.css": [1]})]
+    elif item == "versionlen":
+        v = ".".join(str((k * 7) % 10) for k in range(n)) if n > 1 else "1"
+        sc["deps"] = [simple_dep("a", "1" + v, {AWKWARD_LAST: tail}), simple_dep("a", "1" + v + ".1", {"w.js": [1]})]
+        sc["doc_order"], sc["nest"] = [1, 0], [0, 1]
+    elif item == "occurrences":
+        sc["deps"] = [simple_dep("a", "1.0", {AWKWARD_LAST: tail}), simple_dep("b", "1.0", {"b.js": [1]})]
+        sc["doc_order"] = [0] * (n - 1) + [1, 0]
+        sc["nest"] = [rng.choice([0, 1, 2, 3, 5]) for _ in sc["doc_order"]]
+        sc["shape"] = rng.choice(["fragment", "html_head", "body"])
+    elif item == "text":
+        sc["deps"] = [simple_dep("a", "1.0", {AWKWARD_LAST: tail}), simple_dep("b", "2.0", {"b c.css": [1]})]
+        sc["route"] = rng.choice(["textdoc_deps", "textdoc_json"])
+        sc["text"] = rand_text_opts(rng, pad={300: 70000, 257: 5000}.get(n, n))
+    else:
+        raise ValueError(item)
+    if item != "text" and rng.random() < 0.6:
+        widen(rng, sc, 0.6)
+    return sc
+
+
+def big_scenarios(rng, quick: bool) -> list[dict]:
+    out = []
+    for item in BIG_ITEMS:
+        top = BIG_MAX.get(item, 300)
+        allowed = [n for n in SIZES if n <= top] + ([top] if top not in SIZES else [])
+        if quick:     # always the largest; two of the others
+            ns = [top] + rng.sample([n for n in allowed if n != top], 2)
+        else:
+            ns = allowed
+        out += [big_scenario(rng, item, n) for n in ns]
+    return out
+
+
+def big_file_scenarios(rng, quick: bool) -> list[dict]:
+    """files larger than every buffer size a copier may use, with sizes that are no multiple of it:
+    listed explicitly (a directory source and a package source), and below an all_files directory"""
+    out = []
+    for variant in ["listed", "allfiles", "listed_pkg"] if not quick else ["listed", "allfiles"]:
+        sizes = file_sizes(rng, full=not quick and variant == "listed")
+        files = {("big/" if k % 3 == 1 else "") + "f%02d %d.bin" % (k, n): {"gen": [n, 1000 + k]}
+                 for k, n in enumerate(sizes)}
+        dep = simple_dep("bulk", "3.1", files, scripts=sorted(files)[::2], styles=sorted(files)[1::2],
+                         kind="pkg" if variant == "listed_pkg" else "dir", all_files=variant == "allfiles",
+                         stale={"f00 8191.bin": [0xEE] * 40})
+        if variant == "allfiles":
+            dep["scripts"], dep["styles"] = sorted(files)[:1], []
+        sc = {"libdir": rng.choice(LIBDIRS), "iv": rng.random() < 0.5, "host": rng.choice(["doc", "tag", "taglist"]),
+              "shape": rng.choice(SHAPES), "deps": [dep, simple_dep("small", "1.0", {"s.js": [k % 251 for k in range(300)]})],
+              "outside": {"keep.txt": [1]}, "missing": None, "big": ["filesize", max(sizes)]}
+        out.append(widen(rng, sc, 0.5))
+    return out
 
 
 def nontrivial_scenario(sc: dict) -> bool:
@@ -371,7 +656,53 @@ class Widget:
         return div(*self.kids, class_="widget").tagify()
 
 
-def embed(dep, how: int):
+def jsx_component():
+    """a JSX component class (experimental module), or None when it cannot be had"""
+    try:
+        from htmltools._jsx import jsx_tag_create
+        return jsx_tag_create("C12Comp")
+    except Exception:  # noqa: BLE001
+        return None
+
+
+def implicit_jsx_deps() -> list[dict]:
+    """the dependencies a JSX component brings by itself, read off the public fields (name, version,
+    source, script, all_files) of the objects an empty component carries: they are dependency
+    DEFINITIONS like the ones a scenario lists, so the statement applies to them as to any other"""
+    comp = jsx_component()
+    if comp is None:
+        return []
+    out = []
+    for dep in comp().tagify().get_dependencies():
+        src = dep.source or {}
+        if "package" not in src or "subdir" not in src:
+            return []
+        out.append({"name": dep.name, "version": str(dep.version), "kind": "react", "package": src["package"],
+                    "subdir": src["subdir"], "all_files": bool(dep.all_files), "files": {},
+                    "scripts": [x["src"] for x in dep.script], "styles": [x["href"] for x in dep.stylesheet],
+                    "href": None, "stale": {}, "stale_kind": "none", "implicit": True})
+    return out
+
+
+def chain(dep, n: int, kind: str):
+    """dep below n levels of tags / lists / tuples / TagLists (or all of them in turn)"""
+    x = dep
+    for k in range(n):
+        how = kind if kind != "mix" else ["tag", "list", "taglist", "tuple"][k % 4]
+        if how == "tag":
+            x = div(x) if k % 2 else span("c", x)
+        elif how == "list":
+            x = [x]
+        elif how == "tuple":
+            x = ("t", x)
+        else:
+            x = TagList(x, "l")
+    return x
+
+
+def embed(dep, how):
+    if isinstance(how, list):          # ["chain", depth, kind]
+        return chain(dep, int(how[1]), how[2])
     if how == 1:
         return div("content", dep)
     if how == 2:
@@ -382,6 +713,12 @@ def embed(dep, how: int):
         return Widget("w", dep)
     if how == 5:
         return [span("l"), dep]
+    if how == 6:                       # inside a JSX component inside an ordinary tag
+        comp = jsx_component()
+        return div(comp(span("x"), dep, prop=1), "t") if comp is not None else div("content", dep)
+    if how == 7:                       # next to head content and a source-less dependency
+        return [head_content(tags.title("hc"), tags.meta(name="hc", content="1")),
+                HTMLDependency("bare", "0.1"), div(dep)]
     return dep
 
 
@@ -389,6 +726,10 @@ class Realised:
     """a scenario laid out below `top` (an absolute, resolved directory)"""
 
     def __init__(self, sc: dict, top: str, pkg_tag: str):
+        self.case_sc = sc
+        self.build_order = doc_order(sc)            # the occurrences the harness places itself
+        self.build_nest = list(sc.get("nest") or ([1] + [0] * len(self.build_order)))
+        sc = self.with_implicit(sc)
         self.sc = sc
         self.top = top
         self.docdir = os.path.join(top, "out")
@@ -401,13 +742,17 @@ class Realised:
         self.eff = resolved_indices(sc)             # the document's dependencies, in copy order
         self.superseded = [i for i in dict.fromkeys(self.order) if i not in self.eff]
         self.hosts: dict = {}
+        self.probe_k = 0
+        self.second_doc_urls: list | None = None
         os.makedirs(self.docdir)
         self.configure(sc["libdir"], sc["iv"], sc["host"], sc.get("shape", "fragment"),
-                       sc.get("file_form", "abs"))
+                       sc.get("file_form", "abs"), sc.get("route", "save_html"))
         pkgroot = os.path.join(top, "pkgs")
         sources: list = []
         for i, d in enumerate(sc["deps"]):
             kind = d["kind"]
+            ctor = d.get("ctor") or {}
+            form = ctor.get("subdir", "plain")
             srcdir = None
             msrc: list
             if d.get("share") is not None:          # served from the directory of an earlier one
@@ -416,7 +761,9 @@ class Realised:
                 srcdir = os.path.join(top, f"src{i}")
                 write_tree(srcdir, list(d["files"].items()))
                 os.makedirs(srcdir, exist_ok=True)
-                source = {"subdir": srcdir}
+                spelled = {"slash": srcdir + "/", "dot": os.path.join(top, ".", f"src{i}"),
+                           "dotdot": os.path.join(srcdir, "..", f"src{i}")}.get(form, srcdir)
+                source = {"subdir": spelled}
                 msrc = [2, [], S(srcdir)]
             elif kind == "pkg":
                 pkg = f"c12pkg_{pkg_tag}_{i}"
@@ -424,6 +771,12 @@ class Realised:
                 os.makedirs(pdir)
                 with open(os.path.join(pdir, "__init__.py"), "w") as fh:
                     fh.write("")
+                if ctor.get("subpkg"):              # the package of the source is a sub-package
+                    pdir = os.path.join(pdir, "sub")
+                    os.makedirs(pdir)
+                    with open(os.path.join(pdir, "__init__.py"), "w") as fh:
+                        fh.write("")
+                    pkg = pkg + ".sub"
                 sub = "assets/v 1" if i % 2 else "assets"
                 srcdir = os.path.join(pdir, sub)
                 write_tree(srcdir, list(d["files"].items()))
@@ -432,24 +785,23 @@ class Realised:
                     sys.path.append(pkgroot)
                 importlib.invalidate_caches()
                 self.pkg_names.append(pkg)
+                spelled = {"slash": sub + "/", "dot": "./" + sub, "dotdot": "assets/../" + sub}.get(form, sub)
+                source = {"package": pkg, "subdir": spelled}
+                msrc = [2, [S(pdir)], S(sub)]
+            elif kind == "react":                   # files that ship with a package that is installed
+                pkg, sub = d.get("package", "htmltools"), d.get("subdir", "lib/react")
+                pdir = (os.path.dirname(os.path.abspath(htmltools.__file__)) if pkg == "htmltools"
+                        else htmltools._util.package_dir(pkg))
+                srcdir = os.path.join(pdir, sub)
                 source = {"package": pkg, "subdir": sub}
                 msrc = [2, [S(pdir)], S(sub)]
-            elif kind == "react":
-                pdir = os.path.dirname(os.path.abspath(htmltools.__file__))
-                srcdir = os.path.join(pdir, "lib/react")
-                source = {"package": "htmltools", "subdir": "lib/react"}
-                msrc = [2, [S(pdir)], S("lib/react")]
             elif kind == "url":
                 source = {"href": d["href"]}
                 msrc = [1, S(d["href"])]
             else:
                 source = None
                 msrc = [0]
-            dep = HTMLDependency(
-                d["name"], d["version"], source=source,
-                script=[{"src": p} for p in d["scripts"]],
-                stylesheet=[{"href": p} for p in d["styles"]],
-                all_files=d["all_files"])
+            dep = self.make_dep(d, source)
             self.deps.append(dep)
             self.srcdirs.append(srcdir)
             sources.append((srcdir, source, msrc))
@@ -479,9 +831,58 @@ class Realised:
             i, p = sc["missing"]
             os.remove(os.path.join(self.srcdirs[i], p))
 
-    def configure(self, libdir, iv: bool, host: str, shape: str = "fragment", file_form: str = "abs") -> None:
+    def with_implicit(self, sc: dict) -> dict:
+        """the scenario with the dependencies that JSX components bring added as definitions, at the
+        places (document order) where the component sits"""
+        if 6 not in [n for n in self.build_nest if not isinstance(n, list)]:
+            return sc
+        imp = implicit_jsx_deps()
+        if not imp or any(d["name"] in [e["name"] for e in imp] for d in sc["deps"]):
+            self.build_nest = [1 if n == 6 else n for n in self.build_nest]
+            return sc
+        n0 = len(sc["deps"])
+        order: list[int] = []
+        for k, i in enumerate(self.build_order):
+            how = self.build_nest[k] if k < len(self.build_nest) else 0
+            if how == 6:
+                order += list(range(n0, n0 + len(imp)))
+            order.append(i)
+        return dict(sc, deps=list(sc["deps"]) + imp, doc_order=order)
+
+    @staticmethod
+    def make_dep(d: dict, source) -> HTMLDependency:
+        c = d.get("ctor") or {}
+        scripts: Any = [{"src": p} for p in d["scripts"]]
+        styles: Any = [{"href": p} for p in d["styles"]]
+        if c.get("extra"):
+            for k, it in enumerate(scripts):
+                it.update({"defer": True} if k % 2 else {"type": "module", "data-k": "a b"})
+            for it in styles:
+                it["media"] = "print"
+        if c.get("one_dict"):
+            scripts = scripts[0] if len(scripts) == 1 else scripts
+            styles = styles[0] if len(styles) == 1 else styles
+        kw: dict[str, Any] = {}
+        if c.get("meta"):
+            m = {"name": "viewport", "content": "width=device-width"}
+            kw["meta"] = m if c.get("one_dict") else [m, {"name": "x", "content": "a b"}]
+        h = c.get("head")
+        if h == "text":
+            kw["head"] = "<style>p { margin: 0 }</style>"
+        elif h == "tag":
+            kw["head"] = tags.meta(name="generator", content="c12")
+        elif h == "list":
+            kw["head"] = [tags.style("b {}"), "text & more"]
+        version: Any = _RefVersion(d["version"]) if c.get("version_obj") else d["version"]
+        return HTMLDependency(d["name"], version, source=source, script=scripts, stylesheet=styles,
+                              all_files=d["all_files"], **kw)
+
+    def configure(self, libdir, iv: bool, host: str, shape: str = "fragment", file_form: str = "abs",
+                  route: str | None = None) -> None:
         self.libdir, self.iv, self.host, self.shape = libdir, iv, host, shape
         self.file_form = file_form
+        if route is not None:
+            self.route = route
         self.destdir = os.path.join(self.docdir, libdir) if libdir else self.docdir
 
     def file_arg(self) -> tuple[str | None, str]:
@@ -502,19 +903,120 @@ class Realised:
         return (None, self.file)
 
     def save(self, host) -> tuple:
-        """save_html on host; (outcome, the file the returned path names or None)"""
+        """save_html on host (or the route's equivalent of it); (outcome, the file the returned
+        path names or None)"""
         cwd, arg = self.file_arg()
         old = os.getcwd()
         names = None
         try:
             if cwd is not None:
                 os.chdir(cwd)
-            out = call(lambda: host.save_html(arg, libdir=self.libdir, include_version=self.iv))
+            if self.route == "show":
+                return self.show(host)
+            if self.route == "save_html":
+                out = call(lambda: self.call_save_html(host, arg))
+            else:
+                out = call(lambda: self.manual_save(host, arg))
             if out[0] == "ok" and isinstance(out[1], (str, os.PathLike)):
                 names = os.path.realpath(out[1])
         finally:
             os.chdir(old)
         return out, names
+
+    def show(self, host) -> tuple:
+        """host.show(renderer="browser"): saves the page (save_html with its defaults) below the
+        temporary directory and opens it; where the page is, is read off the URL that is opened
+        (the temporary directory is what the local server serves).  The document directory of this
+        scenario becomes the directory of that page."""
+        import webbrowser
+        tmp = os.path.join(self.top, "tmp")
+        os.makedirs(tmp, exist_ok=True)
+        opened: list[str] = []
+        old_open, old_tmp = webbrowser.open, tempfile.tempdir
+        try:
+            webbrowser.open = lambda url, *a, **k: (opened.append(url), True)[1]
+            tempfile.tempdir = tmp
+            out = call(lambda: host.show(renderer="browser"))
+        finally:
+            webbrowser.open, tempfile.tempdir = old_open, old_tmp
+        names = None
+        if out[0] == "ok" and opened:
+            rel = urllib.parse.unquote(urllib.parse.urlsplit(opened[0]).path).lstrip("/")
+            f = os.path.join(tmp, rel)
+            self.docdir, self.file = os.path.dirname(f), f
+            self.configure("lib", True, self.host, self.shape, "abs")
+            names, out = os.path.realpath(f), ("ok", f)
+        elif out[0] == "ok":
+            out = ("err", "show() opened no page")
+        return out, names
+
+    def call_save_html(self, host, arg):
+        style = self.sc.get("argstyle", 0)
+        if style == 1 and isinstance(host, HTMLDocument):      # positional
+            return host.save_html(arg, self.libdir, self.iv)
+        if style == 2:                                          # defaults left out
+            kw: dict[str, Any] = {}
+            if self.libdir != "lib":
+                kw["libdir"] = self.libdir
+            if not self.iv:
+                kw["include_version"] = False
+            return host.save_html(arg, **kw)
+        return host.save_html(arg, libdir=self.libdir, include_version=self.iv)
+
+    def render_kwargs(self) -> dict:
+        kw: dict[str, Any] = {"lib_prefix": self.libdir, "include_version": self.iv}
+        if self.sc.get("argstyle", 0) == 2:
+            if self.libdir == "lib":
+                del kw["lib_prefix"]
+            if self.iv:
+                del kw["include_version"]
+        return kw
+
+    def manual_save(self, host, arg):
+        """what save_html is stated to do, by hand, for the objects that have render() only: render
+        with lib_prefix = libdir, copy the dependencies render() returns below dirname(file)/libdir,
+        write the markup to file; returns file"""
+        if self.route == "render_copy":
+            doc = host if isinstance(host, HTMLDocument) else HTMLDocument(host)
+            rendered = doc.render(**self.render_kwargs())
+        else:
+            t = self.sc.get("text") or {}
+            pat = TEXT_PATTERNS[t.get("pat", 0) % len(TEXT_PATTERNS)]
+            pad = "<!-- " + "x" * int(t.get("pad", 0)) + " -->" if t.get("pad") else ""
+            if self.route == "textdoc_deps":
+                body = "<p>text</p>"
+                td_kw: dict[str, Any] = {"deps": [self.deps[i] for i in self.eff], "deps_replace_pattern": pat}
+            else:                           # the dependencies travel inside the text (json mode)
+                td_kw = {"deps_replace_pattern": pat}
+                if t.get("empty_deps"):
+                    td_kw["deps"] = []
+                if t.get("json_via", "str") == "str":
+                    old_mode = htmltools.html_dependency_render_mode
+                    try:
+                        htmltools.html_dependency_render_mode = "json"
+                        body = str(host)
+                    finally:
+                        htmltools.html_dependency_render_mode = old_mode
+                else:
+                    cp = host.tagify()
+                    body = cp.get_html_string() + "\n".join(
+                        d.serialize_to_script_json(indent=t.get("indent")).get_html_string()
+                        for d in cp.get_dependencies())
+            template = ("<!DOCTYPE html>\n<html><head>" + pad + pat + "</head><body>" + body
+                        + (pat if t.get("twice") else "") + "</body></html>")
+            rendered = HTMLTextDocument(template, **td_kw).render(**self.render_kwargs())
+            # a second document of the same class, in the same process, without dependencies
+            second = HTMLTextDocument("<html><head>" + pat + "</head><body></body></html>",
+                                      deps_replace_pattern=pat).render(**self.render_kwargs())
+            pc = UrlCollector()
+            pc.feed(second["html"])
+            pc.close()
+            self.second_doc_urls = [u for _, u in pc.urls]
+        for dep in rendered["dependencies"]:
+            dep.copy_to(self.destdir, include_version=self.iv)
+        with open(arg, "w", encoding="utf-8", newline="") as f:
+            f.write(rendered["html"])
+        return arg
 
     def namever(self, i: int, iv: bool | None = None) -> str:
         d = self.sc["deps"][i]
@@ -552,51 +1054,116 @@ class Realised:
         importlib.invalidate_caches()
 
     def model_fs(self) -> list:
-        """everything below top, plus the react directory when a dependency uses it"""
+        """everything below top, plus the directories of installed packages that a dependency uses"""
         out = fs_sx(snapshot(self.top), self.top)
-        if any(d["kind"] == "react" for d in self.sc["deps"]):
-            pdir = os.path.join(os.path.dirname(os.path.abspath(htmltools.__file__)), "lib/react")
+        for pdir in dict.fromkeys(self.srcdirs[i] for i, d in enumerate(self.sc["deps"]) if d["kind"] == "react"):
             out += fs_sx(snapshot(pdir), pdir)
         return out
 
     def host_object(self, reuse: bool = False):
         """the object save_html is called on; with reuse, the object of an earlier step with the
         same host and shape (the same document saved again)"""
-        key = (self.host, self.shape)
+        key = (self.host_kind(), self.shape)
         if not (reuse and key in self.hosts):
             self.hosts[key] = self.build_host()
         return self.hosts[key]
 
+    def host_kind(self) -> str:
+        if self.route in ("textdoc_json", "show") and self.host == "doc":
+            return "taglist"        # a document object has no str() / show(): its content as a list
+        return self.host
+
+    def fill(self, ctor, kids: list, **attrs):
+        """ctor(*kids, **attrs), the children arriving the way sc["via"] says"""
+        via = self.sc.get("via")
+        if via is None:
+            return ctor(*kids, **attrs)
+        t = ctor(**attrs)
+        if via == "append":
+            t.append(*kids)
+        elif via == "extend":
+            t.extend(kids)
+        elif via == "insert":
+            for k in reversed(kids):
+                t.insert(0, k)
+        elif via == "add":
+            if isinstance(t, TagList):
+                t = t + kids[:1]
+                t += kids[1:]
+            else:
+                t.children = t.children + kids[:1]
+                t.children += kids[1:]
+        elif via == "with":
+            if not isinstance(t, Tag):
+                t.extend(kids)
+            else:
+                old = sys.displayhook
+                try:
+                    sys.displayhook = lambda v: None
+                    with t:
+                        for k in kids:
+                            sys.displayhook(k)
+                finally:
+                    sys.displayhook = old
+        else:
+            raise ValueError(via)
+        return t
+
     def build_host(self):
-        """Dependencies stay in document order (self.order) in every shape."""
-        deps = [self.deps[i] for i in self.order]
-        nest = self.sc.get("nest") or ([1] + [0] * len(deps))
+        x = self.build_host0()
+        post = self.sc.get("post")
+        if post == "copy":
+            x = _copy.copy(x)
+        elif post == "deepcopy":
+            x = _copy.deepcopy(x)
+        elif post == "tagify" and not isinstance(x, HTMLDocument):
+            x = x.tagify()
+        return x
+
+    def build_host0(self):
+        """Dependencies stay in document order (self.build_order) in every shape."""
+        deps = [self.deps[i] for i in self.build_order]
+        nest = self.build_nest
+        shape = self.shape
+        if 6 in [n for n in nest if not isinstance(n, list)] and shape in ("html_deps_in_head", "html_deps_both"):
+            shape = "html_head"     # these two shapes place dependencies bare: no component around them
         emb = [embed(dep, nest[k] if k < len(nest) else 0) for k, dep in enumerate(deps)]
         kids = (emb if deps else [div("content")]) + [span("end")]
-        shape = self.shape
+        if self.sc.get("dup_kid") and emb:      # one object placed in two parents
+            kids = kids + [div(emb[0], class_="again")]
+        host = self.host_kind()
+        fill = self.fill
+        dkw = dict(self.sc.get("doc_kwargs") or {})
+
+        def document(*content):
+            if self.sc.get("via") in ("append", "extend", "insert", "add"):
+                doc = HTMLDocument(**dkw)
+                doc.append(*content)
+                return doc
+            return HTMLDocument(*content, **dkw)
         if shape == "fragment":
-            if self.host == "doc":
-                return HTMLDocument(TagList(*kids)) if len(deps) % 2 else HTMLDocument(*kids)
-            if self.host == "tag":
-                return div(*kids, id="host")
-            return TagList(*kids)
+            if host == "doc":
+                return document(fill(TagList, kids)) if len(deps) % 2 else document(*kids)
+            if host == "tag":
+                return fill(div, kids, id="host")
+            return fill(TagList, kids)
         if shape == "body":
-            top = tags.body(*kids, id="b")
+            top = fill(tags.body, kids, id="b")
         elif shape == "html_head":          # own head, dependencies inside body
-            top = tags.html(tags.head(tags.title("t")), tags.body(*kids), lang="en")
+            top = tags.html(tags.head(tags.title("t")), fill(tags.body, kids), lang="en")
         elif shape == "html_nohead":        # no head of its own
-            top = tags.html(tags.body(*kids))
+            top = tags.html(fill(tags.body, kids))
         elif shape == "html_nobody":        # neither head nor body
-            top = tags.html(*kids)
+            top = fill(tags.html, kids)
         elif shape == "html_deps_in_head":  # every dependency inside head
-            top = tags.html(tags.head(tags.title("t"), *deps), tags.body(div("content"), span("end")))
+            top = tags.html(fill(tags.head, [tags.title("t"), *deps]), tags.body(div("content"), span("end")))
         elif shape == "html_deps_both":     # first dependency in head, the others in body
-            top = tags.html(tags.head(*deps[:1]), tags.body(div("content"), *emb[1:], span("end")))
+            top = tags.html(fill(tags.head, deps[:1]), fill(tags.body, [div("content"), *emb[1:], span("end")]))
         else:
             raise ValueError(shape)
-        if self.host == "doc":
-            return HTMLDocument(top) if len(deps) % 2 else HTMLDocument(TagList(top))
-        if self.host == "tag":
+        if host == "doc":
+            return document(top) if len(deps) % 2 else document(TagList(top))
+        if host == "tag":
             return top
         return TagList(top)
 
@@ -671,6 +1238,86 @@ def run_scenario(ctx: Ctx, sc: dict, top: str, tag: str, mode: str, pending: lis
         r.cleanup_imports()
 
 
+PROBE_ARGS = [(None, True), ("lib", False), ("p/q", True), ("", False), ("other", True)]
+
+
+def dep_urls_spec(r: Realised, i: int, lp, iv: bool) -> tuple:
+    d = r.sc["deps"][i]
+    ver = str(r.deps[i].version)
+    return ([spec_url(r.sc, d, ver, lp, iv, p) for p in d["styles"]],
+            [spec_url(r.sc, d, ver, lp, iv, p) for p in d["scripts"]])
+
+
+def markup_urls(text: str) -> tuple:
+    pc = UrlCollector()
+    pc.feed(text)
+    pc.close()
+    return ([u for k, u in pc.urls if k == "link"], [u for k, u in pc.urls if k == "script"])
+
+
+def probe_targets(r: Realised) -> list[int]:
+    loc = [i for i in dict.fromkeys(r.order) if r.sc["deps"][i]["kind"] != "none"]
+    return loc[:2] + loc[2:][-1:]
+
+
+def pre_probe(r: Realised, viol) -> None:
+    """read-only calls on the dependency objects BEFORE the operation under test, with other
+    arguments than the operation will use: as_dict / as_html_tags / source_path_map / str / copies.
+    Each result is judged by the URL shape of the statement; the caller then changes the returned
+    dict (its own object).  Whatever these calls leave behind in the dependency object or in the
+    class shows in the operation that follows (which has the full oracle)."""
+    for i in probe_targets(r):
+        dep = r.deps[i]
+        r.probe_k += 1
+        lp, iv = PROBE_ARGS[r.probe_k % len(PROBE_ARGS)]
+        want = dep_urls_spec(r, i, lp, iv)
+        which = r.probe_k % 4
+        if which == 0:
+            o = call(lambda: dep.as_dict(lib_prefix=lp, include_version=iv))
+            got = o if o[0] != "ok" else ([x["href"] for x in o[1]["stylesheet"]], [x["src"] for x in o[1]["script"]])
+            if o[0] == "ok":            # the caller's own dict now: do with it as one pleases
+                for x in o[1]["script"]:
+                    x["src"] = "changed-by-caller.js"
+                for x in o[1]["stylesheet"]:
+                    x.clear()
+                o[1]["script"].clear()
+            what = "as_dict(lib_prefix=%r, include_version=%r)" % (lp, iv)
+        elif which == 1:
+            o = call(lambda: dep.as_html_tags(lib_prefix=lp, include_version=iv).get_html_string())
+            got = o if o[0] != "ok" else markup_urls(o[1])
+            what = "as_html_tags(lib_prefix=%r, include_version=%r)" % (lp, iv)
+        elif which == 2:
+            lp, iv = "lib", True        # the documented defaults
+            want = dep_urls_spec(r, i, lp, iv)
+            o = call(lambda: str(dep))
+            got = o if o[0] != "ok" else markup_urls(o[1])
+            what = "str(dependency)"
+        else:
+            o = call(lambda: (_copy.deepcopy(dep) if r.probe_k % 8 == 3 else _copy.copy(dep)).as_dict(
+                lib_prefix=lp, include_version=iv))
+            got = o if o[0] != "ok" else ([x["href"] for x in o[1]["stylesheet"]], [x["src"] for x in o[1]["script"]])
+            what = "copy of the dependency .as_dict(lib_prefix=%r, include_version=%r)" % (lp, iv)
+        if got != want:
+            viol("dependency URLs from %s are not prefix/name[-version]/path (local) or href/path (URL source)"
+                 % what.split("(")[0], {"impl_output": got, "expected": want, "call": what,
+                                        "dependency": r.sc["deps"][i]["name"]})
+
+
+def post_probe(r: Realised, viol) -> None:
+    """after the operation: the same dependency objects still give the URLs of the statement, for the
+    arguments just used and for the defaults (nothing the operation did is remembered)"""
+    for i in probe_targets(r)[:2]:
+        dep = r.deps[i]
+        for lp, iv, kw in ((r.libdir, r.iv, {"lib_prefix": r.libdir, "include_version": r.iv}), ("lib", True, {})):
+            o = call(lambda: dep.as_dict(**kw))
+            got = o if o[0] != "ok" else ([x["href"] for x in o[1]["stylesheet"]], [x["src"] for x in o[1]["script"]])
+            want = dep_urls_spec(r, i, lp, iv)
+            if got != want:
+                viol("after saving / copying, as_dict of the same dependency object gives other URLs than the statement's",
+                     {"impl_output": got, "expected": want, "call": "as_dict(%r)" % kw,
+                      "dependency": r.sc["deps"][i]["name"]})
+
+
 def copy_step(ctx: Ctx, r: Realised, mode: str, pending: list, case: dict, reuse: bool = False) -> None:
     """mode 'save': save_html on the host object; 'copy': dep.copy_to for each of the document's
     (resolved) dependencies, with the current configuration of r, on whatever the directories
@@ -686,29 +1333,45 @@ def copy_step(ctx: Ctx, r: Realised, mode: str, pending: list, case: dict, reuse
         doc_before = open(r.file, "rb").read() if os.path.isfile(r.file) else None
         t_before = [os.path.lexists(r.target_dir(i)) for i in range(len(r.deps))]
 
+        def viol(what, detail):
+            ctx.violation(what, case, detail)
+
+        if sc.get("probe"):
+            pre_probe(r, viol)
         if mode == "save":
             host = r.host_object(reuse)
             out, names = r.save(host)
         else:
             out = ("ok", None)
-            for i in r.eff:
-                dep = r.deps[i]
-                o = call(lambda: dep.copy_to(r.destdir, include_version=r.iv))
-                if o[0] != "ok":
-                    out = o
-                    break
+            how = sc.get("copy_path", "abs")
+            old_cwd = os.getcwd()
+            try:
+                path = r.destdir
+                if how == "slash":
+                    path = r.destdir + "/"
+                elif how == "rel":
+                    os.chdir(top)
+                    path = os.path.relpath(r.destdir, top)
+                for i in r.eff:
+                    dep = r.deps[i]
+                    if how == "abs":
+                        o = call(lambda: dep.copy_to(path, include_version=r.iv))
+                    else:
+                        o = call(lambda: dep.copy_to(path, r.iv))
+                    if o[0] != "ok":
+                        out = o
+                        break
+            finally:
+                os.chdir(old_cwd)
         after_all = snapshot(top)
         # what the model must reproduce: the tree afterwards, without the written document
-        real_after = {os.path.join(top, k): v for k, v in after_all.items()
+        real_after = {os.path.join(top, k): abs_bytes(v) for k, v in after_all.items()
                       if os.path.join(top, k) != r.file}
         pending.append(([9, mfs, S(r.docdir), sx_opt(None if r.libdir is None else S(r.libdir)),
                          1 if r.iv else 0, [r.msx[i] for i in r.eff]],
                         (mode, case, top, "ok" if out[0] == "ok" else out, r.file), real_after))
 
         # ---------------- oracle (from the property statement) ----------------------------
-        def viol(what, detail):
-            ctx.violation(what, case, detail)
-
         if missing is not None:
             i, p = missing
             if out[0] != "err":
@@ -775,6 +1438,11 @@ def copy_step(ctx: Ctx, r: Realised, mode: str, pending: list, case: dict, reuse
             if sorted(absolute) != sorted(want_abs):
                 viol("URL-sourced dependency: script/stylesheet URL is not href/path",
                      {"impl_output": sorted(absolute), "expected": sorted(want_abs)})
+            if r.second_doc_urls:
+                viol("a second document, made without dependencies after this one, has dependency URLs "
+                     "(state shared between documents)", {"impl_output": r.second_doc_urls[:4], "expected": []})
+            r.second_doc_urls = None
+        post_probe(r, viol)
         # target directories: exactly the copied files, byte-identical; stale content gone
         claimed = [r.file] if mode == "save" else []
         for i in r.eff:
@@ -916,6 +1584,65 @@ def family_scenarios() -> list[dict]:
     return out
 
 
+def route_scenarios() -> list[dict]:
+    """complete cross: entry point (route) x include_version x libdir; and: way the children got into
+    the host (via) x object that is saved (post) x host, for save_html.  Argument style, content
+    shape, embedding of the dependencies, constructor spelling, placeholder and probes rotate."""
+    files = {"a b.js": [1, 2], "s/\u00e9%.css": [3], "%41.js": [4], "back\\slash.js": [5]}
+    all_nests = NESTS + NESTS_MORE
+    out = []
+    crosses = [(r, iv, ld, None, None, None) for r, iv, ld in itertools.product(ROUTES, [True, False], LIBDIRS)]
+    crosses += [("save_html", None, None, v, po, h)
+                for v, po, h in itertools.product(VIAS, POSTS, ["doc", "tag", "taglist"])]
+    for route, iv, libdir, via, post, host in crosses:
+        k = len(out)
+        dep = simple_dep("dep", "1.2", files, stale={"old.txt": [9]})
+        dep["ctor"] = {"one_dict": k % 2 == 0, "extra": k % 3 == 0, "meta": k % 4 == 1,
+                       "head": ([None] + HEAD_FORMS)[k % 4],
+                       "version_obj": k % 5 == 2, "subdir": SUBDIR_FORMS[k % 4], "subpkg": k % 2 == 1}
+        dep2 = simple_dep("w~1", "0.3", files, scripts=["a b.js"], styles=[], all_files=True,
+                          kind="pkg" if k % 2 else "dir")
+        dep2["ctor"] = {"one_dict": True, "subdir": SUBDIR_FORMS[(k + 1) % 4], "subpkg": k % 4 == 1}
+        dep3 = {"name": "cdn", "version": "2.0", "kind": "url", "all_files": False, "files": {},
+                "scripts": ["x y.js"], "styles": ["t/u v.css"], "href": URL_HREFS[k % len(URL_HREFS)], "stale": {},
+                "stale_kind": "none"}
+        out.append({"libdir": LIBDIRS[k % 4] if libdir is None and iv is None else libdir,
+                    "iv": (k % 2 == 0) if iv is None else iv,
+                    "host": host or ["doc", "tag", "taglist"][k % 3], "shape": SHAPES[(k // 3) % len(SHAPES)],
+                    "deps": [dep, dep2, dep3], "doc_order": [0, 1, 2, 0][:3 + k % 2],
+                    "nest": [all_nests[(k + j) % len(all_nests)] for j in range(3 + k % 2)],
+                    "outside": {"keep.txt": [1]}, "missing": None, "route": route,
+                    "via": VIAS[k % len(VIAS)] if via is None and host is None else via,
+                    "post": POSTS[(k // 2) % len(POSTS)] if post is None and host is None else post,
+                    "argstyle": k % 3, "probe": k % 2 == 0, "dup_kid": k % 5 == 0,
+                    "doc_kwargs": [None, {"lang": "en"}, {"class_": "a b", "style": "margin:0"}][k % 3],
+                    "copy_path": ["abs", "slash", "rel"][k % 3],
+                    "text": {"pat": k % len(TEXT_PATTERNS), "pad": [0, 300][k % 2], "twice": k % 3 == 0,
+                             "indent": [None, 0, 2, 7][k % 4], "json_via": ["str", "serialize"][(k // 2) % 2],
+                             "empty_deps": k % 5 == 0}})
+    return out
+
+
+def show_available() -> bool:
+    import socket
+    try:
+        with socket.socket() as sk:
+            sk.bind(("", 0))
+        return True
+    except OSError:
+        return False
+
+
+def show_scenarios(rng, n: int) -> list[dict]:
+    """Tag.show / TagList.show with the browser renderer: libdir and include_version are the defaults"""
+    out = []
+    for k in range(n):
+        sc = rand_scenario(rng, libdir="lib", iv=True, route="show", host=["tag", "taglist", "doc"][k % 3])
+        sc.pop("file_form", None)
+        out.append(sc)
+    return out
+
+
 def exhaustive_scenarios() -> list[dict]:
     """small scope, complete: libdir x include_version x all_files x source kind x stale state x
     every subset of three awkward files being listed (scripts first, stylesheets second)"""
@@ -942,7 +1669,7 @@ def exhaustive_scenarios() -> list[dict]:
 # histories: several copies / saves of the SAME dependency objects in one process, with the
 # source and destination directories changing in between
 # --------------------------------------------------------------------------------------
-def rand_history(rng, pattern: str | None = None) -> dict:
+def rand_history(rng, pattern: str | None = None, length: int | None = None) -> dict:
     """a base scenario plus 2-4 copy/save steps separated by 0-2 mutation steps.
     step ::= ["save"|"copy", libdir, iv, host, shape, reuse the document object of an earlier step, file form]
            | ["delete", i, p] | ["restore", i, p, bytes] | ["change", i, p, bytes]
@@ -955,7 +1682,8 @@ def rand_history(rng, pattern: str | None = None) -> dict:
         loc = [i for i, d in enumerate(sc["deps"]) if d["kind"] in ("dir", "pkg") and d.get("share") is None]
         listed_loc = [i for i in loc if not sc["deps"][i]["all_files"]
                       and sc["deps"][i]["scripts"] + sc["deps"][i]["styles"]]
-        if loc and (listed_loc or pattern in (None, "allfiles", "resave")):
+        if loc and (listed_loc or pattern in (None, "allfiles", "resave")) and (
+                length is None or sum(len(d["files"]) for d in sc["deps"]) <= 8):
             if pattern == "allfiles" and not any(sc["deps"][i]["all_files"] for i in loc):
                 sc["deps"][loc[0]]["all_files"] = True
             break
@@ -976,7 +1704,8 @@ def rand_history(rng, pattern: str | None = None) -> dict:
         cfg[2] = rng.choice(["doc", "tag", "taglist"])
         return [rng.choice(["save", "save", "copy"]), cfg[0], cfg[1], cfg[2],
                 rng.choice(SHAPES) if not same or rng.random() < 0.5 else "fragment",
-                rng.random() < 0.5, rng.choice(FILE_FORMS) if rng.random() < 0.3 else "abs"]
+                rng.random() < 0.5, rng.choice(FILE_FORMS) if rng.random() < 0.3 else "abs",
+                rng.choice(ROUTES) if rng.random() < 0.3 else None]
 
     def mutation():
         i = rng.choice(loc)
@@ -1009,7 +1738,8 @@ def rand_history(rng, pattern: str | None = None) -> dict:
             return ["restore", i, p, b]
         if op == "change":
             p = rng.choice(sorted(cur[i]))
-            cur[i][p] = rand_bytes(rng) + [k % 256]
+            nb = rand_bytes(rng)
+            cur[i][p] = nb + [k % 256] if isinstance(nb, list) else nb
             return ["change", i, p, cur[i][p]]
         if op == "add":
             p = rng.choice([f"new{k} file.js", f"nd{k}/x y%.css", f"n{k}é.txt"])
@@ -1049,8 +1779,8 @@ def rand_history(rng, pattern: str | None = None) -> dict:
             for _ in range(rng.randrange(1, 3)):
                 steps.append(mutation())
             steps.append(copy_step_desc(rng.random() < 0.7))
-    else:
-        for n in range(rng.randrange(2, 5)):
+    else:         # with `length`: that many copy/save steps in one history
+        for n in range(rng.randrange(2, 5) if length is None else length):
             if n > 0 or rng.random() < 0.3:
                 for _ in range(rng.randrange(0, 3)):
                     steps.append(mutation())
@@ -1084,7 +1814,8 @@ def run_history(ctx: Ctx, h: dict, top: str, tag: str, pending: list) -> int:
         for k, st in enumerate(h["steps"]):
             if st[0] in ("save", "copy"):
                 r.configure(st[1], st[2], st[3], st[4] if len(st) > 4 else "fragment",
-                            st[6] if len(st) > 6 else "abs")
+                            st[6] if len(st) > 6 else "abs",
+                            st[7] if len(st) > 7 and st[7] else r.sc.get("route", "save_html"))
                 n += 1
                 copy_step(ctx, r, st[0], pending,
                           {"mode": "history", "scenario": h["scenario"], "steps": h["steps"], "at_step": k},
@@ -1126,6 +1857,15 @@ def string_cases(ctx: Ctx) -> list[str]:
                                for _ in range(n)))
         else:
             out.append(trees.rand_text(rng, 12))
+    # long strings (>= 300, >= 5000, >= 70000 characters) whose awkward part is the tail
+    for n in [300, 5000, 70000] if ctx.quick else [300, 1000, 5000, 20000, 70000, 140000]:
+        # (the extracted model is not tail-recursive: its result must stay below ~250000 characters,
+        # so the longest strings are made of pieces that quote to little more than themselves)
+        fill = rng.choice(["a", "ab/", "\u00e9", "%41", "x y"] if n <= 20000 else
+                          ["a", "ab/", "%41", "x y"] if n <= 70000 else ["a", "ab/"])
+        out.append((fill * (n // len(fill) + 1))[:n] + rng.choice([" \u00e9%41/%", "%C3%A9%zz%4", "/\U0001F600 #?"]))
+    for n in SIZES:
+        out.append("a" * (n - 1) + rng.choice(["%", " ", "\u00e9", "/", "%41"]))
     return out
 
 
@@ -1154,7 +1894,28 @@ def run(ctx: Ctx) -> None:
                 "version, earliest on ties, names by first occurrence), so a superseded version must neither "
                 "disturb the winner's directory nor make saving fail; the file argument of save_html is "
                 "absolute, relative to the current directory, has a redundant ../ component or goes through a "
-                "symbolic link. A scenario is "
+                "symbolic link. Entry points and argument spellings (list at the top of the module): besides "
+                "save_html (keywords / positional / defaults left out) the same scenario is driven through "
+                "HTMLDocument.render(lib_prefix, include_version) + copy_to of the returned dependencies, through "
+                "HTMLTextDocument.render with the dependencies given directly or travelling inside the text (json "
+                "render mode via str(), or serialize_to_script_json(indent=..)) with placeholders containing regex "
+                "metacharacters, long templates and a second dependency-free document made afterwards, and through "
+                "Tag/TagList.show(renderer='browser'); the host's children arrive by constructor / append / extend / "
+                "insert / + and += / a with-block, and the host itself or its copy / deepcopy / tagify() is saved; "
+                "HTMLDocument gets html attributes; dependencies are constructed with a lone item as a dict, extra "
+                "item attributes, meta items, a head payload, a Version object, source directories spelled with a "
+                "trailing slash or redundant components, sub-package sources; they sit inside JSX components (whose "
+                "own react / react-dom dependencies are then definitions of the scenario), next to head_content and "
+                "source-less dependencies, below chains of tags / lists / tuples / TagLists; copy_to gets its path "
+                "absolute, with a trailing slash or relative. Read-only calls (as_dict / as_html_tags / str / "
+                "copies, with other arguments; the returned dict then changed by the caller) run before the "
+                "operation and as_dict again after it, each judged by the URL shape of the statement. Sizes: every "
+                "countable thing (dependencies, scripts, stylesheets, files below an all_files directory, path "
+                "depth, nesting depth, objects of one name, libdir depth, stale files, file-name / dependency-name / "
+                "version length, occurrences of one object, template length, steps of a history) at 7..300 (quick: "
+                "the largest and two others each), files of 8 KiB .. 1.5 MiB at, around and beyond every usual buffer "
+                "size with sizes that are no multiple of one (contents without repeating blocks), strings and paths "
+                "of 300 / 5000 / 70000 characters with the awkward part last. A scenario is "
                 "non-trivial when a file name needs quoting or is nested, or the target has stale content, or a "
                 "source is a package/URL/None, or a file is missing; distinct = distinct canonical scenario "
                 "descriptions / strings.")
@@ -1204,7 +1965,11 @@ def run(ctx: Ctx) -> None:
     differential(ctx, "urllib.parse.quote (surrogates raise)", sur, to_sx=lambda s: [1, S(s)],
                  impl=lambda s: call(urllib.parse.quote, s), decode=lambda m: res_dec(m, unS),
                  kind=lambda s: "string (quote)", driver="c12")
-    differential(ctx, "urllib.parse.unquote", strs, to_sx=lambda s: [2, S(s)],
+    # (the model's unquote is a proof-friendly definition whose running time grows faster than
+    # linearly: 0.2 s at 5000 characters, minutes at 70000; unquote is a stdlib function used by the
+    # oracle, not library code, so the longest strings go through quote / UTF-8 / the oracle only)
+    differential(ctx, "urllib.parse.unquote", [s for s in strs if len(s) <= (6000 if ctx.quick else 21000)],
+                 to_sx=lambda s: [2, S(s)],
                  impl=lambda s: urllib.parse.unquote(s), decode=unS,
                  nontrivial=nontriv_s, kind=lambda s: "string (unquote)", driver="c12")
     bs = [bytes(rng.choice([rng.randrange(256), rng.choice([0xC2, 0xE0, 0xED, 0xF0, 0xF4, 0x80, 0xA0, 0x90, 0xBF,
@@ -1244,6 +2009,22 @@ def run(ctx: Ctx) -> None:
         if not indom and rng.random() < 0.4:
             d["scripts"].append(rng.choice(["/abs.js", "", "a//b.js", "./x.js", "\ud800.js", "../up.js"]))
         url_cases.append((d, rng.choice(LIBDIRS if indom else odd_prefixes), rng.random() < 0.5, indom))
+
+    # sizes: many scripts / stylesheets, long and deep paths, long names and prefixes (tail awkward)
+    for n in ([300] + rng.sample(SIZES[:-1], 3)) if ctx.quick else SIZES:
+        items = ["s%03d.js" % k for k in range(n - 1)] + ["sub dir/" + AWKWARD_LAST]
+        kind = rng.choice(["dir", "pkg", "url"])
+        d = {"name": "many", "version": "1.0", "kind": kind, "href": rng.choice(URL_HREFS),
+             "scripts": items if n % 2 else items[:1], "styles": [x + ".css" for x in (items if not n % 2 else items[-1:])],
+             "all_files": False}
+        url_cases.append((d, rng.choice(LIBDIRS), rng.random() < 0.5, True))
+    for n in [70, 300, 5000, 70000]:
+        kind = rng.choice(["dir", "pkg", "url"])
+        deep = "/".join(["d"] * (n // 2)) + "/" + AWKWARD_LAST
+        long_ = "a" * n + " \u00e9%#.js"
+        d = {"name": ("n" * min(n, 300)), "version": "1.0", "kind": kind, "href": rng.choice(URL_HREFS),
+             "scripts": [deep, "x.js"], "styles": [long_], "all_files": False}
+        url_cases.append((d, rng.choice(["/".join(["l"] * min(n, 70)), "p" * min(n, 5000), None]), n % 3 == 0, True))
 
     def mk_dep(d):
         source = ({"subdir": "/nonexistent/src"} if d["kind"] == "dir" else
@@ -1371,6 +2152,13 @@ def run(ctx: Ctx) -> None:
         if ctx.quick:      # every shape x host x include_version; libdir rotates
             shp = [sc for k, sc in enumerate(shp) if (k // 2) % 4 == (k // 8) % 4]
         go(shp, "save", "save_html, content shape x host x libdir x include_version")
+        rts = route_scenarios()
+        if ctx.quick:      # the route cross completely; a third of the via x post x host cross
+            rts = rts[:32] + rts[32 + ctx.seed % 3::3]
+        go(rts, "save", "entry point x include_version x libdir; way of building x object saved x host")
+        go(rts[3::4], "copy", "copy_to with the path absolute / with a trailing slash / relative")
+        if show_available():
+            go(show_scenarios(rng, ctx.budget(3, 15)), "save", "Tag.show / TagList.show (browser renderer)")
         fam = family_scenarios()
         go(fam, "save", "save_html, several objects for one dependency name x document order x include_version x host")
         fam_miss = [m for sc in (fam[1::7] if ctx.quick else fam[::2]) for m in missing_variants(sc)]
@@ -1382,6 +2170,14 @@ def run(ctx: Ctx) -> None:
             exm = [m for sc in ex[::7] for m in missing_variants(sc)]
             go(exm, "copy", "missing listed file, small scope")
         go(scen_copy, "copy", "HTMLDependency.copy_to")
+        # sizes: every countable thing at 7 .. 300 (quick: the largest and two others each), big files
+        bigs = big_scenarios(rng, ctx.quick)
+        go(bigs, "save", "sizes 7..300 of: " + ", ".join(BIG_ITEMS))
+        go([sc for sc in bigs if sc["big"][0] in ("scripts", "allfiles", "pathdepth", "stale", "family", "namelen")][::2],
+           "copy", "copy_to, sizes 7..300")
+        bf = big_file_scenarios(rng, ctx.quick)
+        go(bf, "save", "files around and beyond 8 KiB .. 1 MiB (sizes that are no multiple of a buffer size)")
+        go(bf[:1] if ctx.quick else bf, "copy", "copy_to, files around and beyond 8 KiB .. 1 MiB")
         go(miss, "save", "missing listed file (save_html)")
         go([dict(sc) for sc in miss[:ctx.budget(25, 300)]], "copy", "missing listed file (copy_to)")
         go(special, "copy", "target is a regular file / directory listed with a file inside it", oracle_on=False)
@@ -1390,7 +2186,9 @@ def run(ctx: Ctx) -> None:
         hists = ([rand_history(rng, "delete") for _ in range(ctx.budget(25, 400))]
                  + [rand_history(rng, "allfiles") for _ in range(ctx.budget(12, 200))]
                  + [rand_history(rng, "resave") for _ in range(ctx.budget(20, 300))]
-                 + [rand_history(rng) for _ in range(ctx.budget(25, 500))])
+                 + [rand_history(rng) for _ in range(ctx.budget(25, 500))]
+                 # many operations in one history (on the same objects and directories)
+                 + [rand_history(rng, None, n) for n in ([9, 33, rng.choice([17, 65])] if ctx.quick else SIZES[:17:2])])
         pending_h: list = []
         nsteps = 0
         for h in hists:
